@@ -440,7 +440,7 @@ func runC14(c *core.Ctx) {
 			vbftSucc = append(vbftSucc, s)
 		}
 	}
-	c.Floor("success returns in the vbft arm", len(vbftSucc), 2)
+	c.Floor("success returns in the vbft arm", len(vbftSucc), 1)
 	thr := eng.NamedGuard{Name: "len(Bookkeepers) >= m", G: func(cd ir.Cond) (bool, bool) {
 		if cd.If == thrIf {
 			return true, false != false || !true == false // pass on the false edge of `<`
@@ -544,9 +544,22 @@ func runC14(c *core.Ctx) {
 		if !ok {
 			continue
 		}
-		if !isPeerMap(ret.Results[0]) {
-			changed = append(changed, ir.Sink{Instr: ret, Note: "return of a new peer map"})
+		if isPeerMap(ret.Results[0]) {
+			continue
 		}
+		// one return of a variable that is the map in force on some paths and a new map on others: the
+		// sinks are the paths (phi edges) that carry a new map
+		if phi, isPhi := ret.Results[0].(*ssa.Phi); isPhi && phi.Block() == b {
+			for i, e := range phi.Edges {
+				if isPeerMap(e) {
+					continue
+				}
+				pred := b.Preds[i]
+				changed = append(changed, ir.Sink{Instr: ret, Via: &ir.Edge{From: pred, Idx: indexOfSucc(pred, b)}, Note: "return of a new peer map"})
+			}
+			continue
+		}
+		changed = append(changed, ir.Sink{Instr: ret, Note: "return of a new peer map"})
 	}
 	c.Floor("returns of a new validator map", len(changed), 1)
 	eng.Dominates(c, "C14.set-changes-only-when-verified", fn, eng.NamedGuard{Name: "VerifyMultiSignature err==nil", G: ir.ErrNil(msPred)}, changed, "return of a new peer map", nil)
